@@ -38,15 +38,6 @@ VARIANTS = {
 }
 
 
-# VERIF_COVERAGE=1: the "plain" variant is built with gcov instrumentation (used once by tools/coverage.sh to audit which parts of the
-# library the checks execute; never set by a registered command)
-if os.environ.get("VERIF_COVERAGE"):
-    VARIANTS["plain"] = dict(cmake=["-DCMAKE_BUILD_TYPE=None", "-DTesting=OFF",
-                                    "-DCMAKE_CXX_FLAGS=-Wno-error -w -O0 -g --coverage -DNDEBUG -DPOMEROL_VERIF", "-DCMAKE_SHARED_LINKER_FLAGS=--coverage"],
-                             cxx=["-O0", "-g", "-DNDEBUG", "-DPOMEROL_VERIF", "--coverage"])
-    BUILD_ROOT = os.path.join(VERIF, "build", "cov")
-
-
 def _files(root, subdirs, top):
     out = []
     for sd in subdirs:
